@@ -144,7 +144,12 @@ static bool one_run(verif::Schedule& sch, int runno) {
     if (q->my_aggregator.handler_busy.load() != 0) { printf("locked 1\nend\n"); fflush(stdout); q.release(); return true; }
     // remaining contents: drain sequentially (uncontrolled)
     std::vector<long> rest;
-    { Elem out; while (q->try_pop(out)) rest.push_back(out.v); }
+    {
+        size_t bound = g_init.size() + 8;
+        for (auto& th : g_threads) bound += th.size();
+        Elem out;
+        while (q->try_pop(out) && rest.size() <= bound) rest.push_back(out.v);    // bounded: a broken try_pop may "succeed" forever
+    }
     printf("final");
     for (long v : rest) printf(" %ld", v);
     printf("\nend\n");
